@@ -75,12 +75,27 @@ class C04(Check):
             powered = sum(1 for j, c in enumerate(ps.c) if c != 0 and (ps.mirror[j] or ps.n_abs[j] != ps.n_abs[j + 1]))
         P = o.paraxial
         K1 = ps.K1
+        # conditioning by finite perturbation: the same reference with every input changed by 1e-13 relative
+        from vf.ref.paraxial import ParaxSys
+        pert = lambda v, i: v * (1 + 1e-13 * (1 if (i * 7919) % 3 else -1))  # noqa
+        ps2 = ParaxSys([pert(v, i) for i, v in enumerate(ps.c)], [pert(v, i + 1) for i, v in enumerate(ps.t)],
+                       [pert(v, i + 2) for i, v in enumerate(ps.n_abs)], ps.mirror, pert(ps.t_obj, 5), ps.stop)
+
+        def sens(fn):
+            # 1e4 x the change caused by 1e-13 input perturbations == what 1e-9 input noise could do
+            try:
+                a, b = np.asarray(fn(ps), dtype=float), np.asarray(fn(ps2), dtype=float)
+                d = np.abs(a - b)
+                d = np.where(np.isfinite(d), d, 0.0)
+                return 1e4 * float(np.max(d)) if d.size else 0.0
+            except Exception:  # noqa
+                return 0.0
         phis = [abs((ps.n[j + 1] - ps.n[j]) * ps.c[j]) for j in range(K1)]
         phi = ps.power()
         cond = (sum(phis) / abs(phi)) if phi != 0 else math.inf
         # accumulated size of intermediate quantities also matters: add ray-height growth
         focal_ok = math.isfinite(cond) and cond <= 1e5
-        rt = 1e-10 * max(1.0, cond if math.isfinite(cond) else 1.0) + 1e-9
+        rt = 1e-9
         if not focal_ok:
             out.cls('afocal_or_illconditioned')
         neg = focal_ok and ps.f2() < 0
@@ -93,29 +108,29 @@ class C04(Check):
 
         if focal_ok:
             f1r, f2r, F1r, F2r = ps.f1(), ps.f2(), ps.F1(), ps.F2()
-            out.close('f1', _f(P.f1()), f1r, rtol=rt, scale=sc(f1r))
-            out.close('F1', _f(P.F1()), F1r, rtol=rt, scale=sc(F1r))
-            out.close('F2', _f(P.F2()), F2r, rtol=rt, scale=sc(F2r))
-            out.close('P1', _f(P.P1()), ps.P1(), rtol=rt, scale=sc(F1r) + sc(f1r))
-            out.close('N2', _f(P.N2()), ps.N2(), rtol=rt, scale=sc(F2r) + sc(f1r) + sc(f2r))
+            out.close('f1', _f(P.f1()), f1r, rtol=rt, scale=sc(f1r), atol=sens(lambda q: q.f1()))
+            out.close('F1', _f(P.F1()), F1r, rtol=rt, scale=sc(F1r), atol=sens(lambda q: q.F1()))
+            out.close('F2', _f(P.F2()), F2r, rtol=rt, scale=sc(F2r), atol=sens(lambda q: q.F2()))
+            out.close('P1', _f(P.P1()), ps.P1(), rtol=rt, scale=sc(F1r) + sc(f1r), atol=sens(lambda q: q.P1()))
+            out.close('N2', _f(P.N2()), ps.N2(), rtol=rt, scale=sc(F2r) + sc(f1r) + sc(f2r), atol=sens(lambda q: q.N2()))
             weak = neg and out.kf_open('C04-f2-abs')
             if weak:
                 out.region('C04-f2-abs')
                 f2w = abs(f2r)
             else:
                 f2w = f2r
-            out.close('f2', _f(P.f2()), f2w, rtol=rt, scale=sc(f2r), ref_signed=f2r)
-            out.close('P2', _f(P.P2()), F2r - f2w, rtol=rt, scale=sc(F2r) + sc(f2r))
-            out.close('N1', _f(P.N1()), ps.P1() + f1r + f2w, rtol=rt, scale=sc(F1r) + sc(f1r) + sc(f2r))
+            out.close('f2', _f(P.f2()), f2w, rtol=rt, scale=sc(f2r), ref_signed=f2r, atol=sens(lambda q: q.f2()))
+            out.close('P2', _f(P.P2()), F2r - f2w, rtol=rt, scale=sc(F2r) + sc(f2r), atol=sens(lambda q: q.P2()))
+            out.close('N1', _f(P.N1()), ps.P1() + f1r + f2w, rtol=rt, scale=sc(F1r) + sc(f1r) + sc(f2r), atol=sens(lambda q: q.N1()))
             epd_r = ps.EPD(at, av)
             if at == 'imageFNO':
                 out.close('FNO', _f(P.FNO()), av, rtol=1e-12)
             elif math.isfinite(epd_r) and epd_r != 0:
-                out.close('FNO', _f(P.FNO()), f2w / epd_r, rtol=rt, scale=abs(f2r / epd_r))
+                out.close('FNO', _f(P.FNO()), f2w / epd_r, rtol=rt, scale=abs(f2r / epd_r), atol=sens(lambda q: q.FNO(at, av)))
         # pupils
         EPLr = ps.EPL()
         if math.isfinite(EPLr):
-            out.close('EPL', _f(P.EPL()), EPLr, rtol=rt, scale=sc(EPLr))
+            out.close('EPL', _f(P.EPL()), EPLr, rtol=rt, scale=sc(EPLr), atol=sens(lambda q: q.EPL()))
         epd_ok = at != 'imageFNO' or focal_ok
         if not epd_ok:
             return
@@ -123,7 +138,7 @@ class C04(Check):
         if not (math.isfinite(EPDr) and math.isfinite(EPLr)):
             out.cls('pupil_not_finite')
             return
-        out.close('EPD', _f(P.EPD()), EPDr, rtol=rt, scale=abs(EPDr))
+        out.close('EPD', _f(P.EPD()), EPDr, rtol=rt, scale=abs(EPDr), atol=sens(lambda q: q.EPD(at, av)))
         # rays
         ya, ua = P.marginal_ray()
         ya, ua = np.ravel(ya), np.ravel(ua)
@@ -137,8 +152,8 @@ class C04(Check):
         out.expect('marginal_len', len(ya) == K1 + 1 and len(ua) == K1 + 1, got=len(ya), want=K1 + 1)
         if len(ya) != K1 + 1:
             return
-        out.close('marginal_y', ya[1:], rya, rtol=rt, scale=ysc)
-        out.close('marginal_u', ua[1:], rua, rtol=rt, scale=usc)
+        out.close('marginal_y', ya[1:], rya, rtol=rt, scale=ysc, atol=sens(lambda q: q.marginal(at, av)[0]))
+        out.close('marginal_u', ua[1:], rua, rtol=rt, scale=usc, atol=sens(lambda q: q.marginal(at, av)[1]))
         if mf > 0:
             yb, ub = P.chief_ray()
             yb, ub = np.ravel(yb), np.ravel(ub)
@@ -146,22 +161,23 @@ class C04(Check):
             if np.all(np.isfinite(ryb)) and np.all(np.isfinite(rub)) and len(yb) == K1 + 1:
                 bsc = max(np.nanmax(np.abs(ryb)), 1e-3 * Lscale)
                 busc = max(np.nanmax(np.abs(rub)), bsc / Lscale)
-                out.close('chief_y', yb[1:], ryb, rtol=rt, scale=bsc)
-                out.close('chief_u', ub[1:], rub, rtol=rt, scale=busc)
+                out.close('chief_y', yb[1:], ryb, rtol=rt, scale=bsc, atol=sens(lambda q: q.chief(ftype, mf)[0]))
+                out.close('chief_u', ub[1:], rub, rtol=rt, scale=busc, atol=sens(lambda q: q.chief(ftype, mf)[1]))
                 # chief ray passes through the centre of the stop
-                out.close('chief_through_stop', yb[ps.stop], 0.0, atol=rt * bsc)
+                out.close('chief_through_stop', yb[ps.stop], 0.0, atol=rt * bsc + sens(lambda q: q.chief(ftype, mf)[0]))
                 # Lagrange invariant from the *returned* arrays, signed indices
                 nsg = np.array(ps.n[1:], dtype=float)
                 H = nsg * (yb[1:] * ua[1:] - ya[1:] * ub[1:])
                 Hr = ps.invariant(at, av, ftype, mf)
                 hsc = max(abs(Hr), ysc * busc, bsc * usc) * max(1.0, np.max(np.abs(nsg)))
-                out.close('invariant_constant', H, np.full_like(H, Hr), rtol=rt * 10, scale=hsc)
+                hs = sens(lambda q: q.invariant(at, av, ftype, mf)) + 10 * (ysc * sens(lambda q: q.chief(ftype, mf)[1]) + busc * sens(lambda q: q.marginal(at, av)[0]) + bsc * sens(lambda q: q.marginal(at, av)[1]) + usc * sens(lambda q: q.chief(ftype, mf)[0]))
+                out.close('invariant_constant', H, np.full_like(H, Hr), rtol=rt * 10, scale=hsc, atol=hs)
                 flip = ps.parity[1] < 0
                 if flip and out.kf_open('C04-invariant-sign'):
                     out.region('C04-invariant-sign')
-                    out.close('invariant', abs(_f(P.invariant())), abs(Hr), rtol=rt * 10, scale=hsc)
+                    out.close('invariant', abs(_f(P.invariant())), abs(Hr), rtol=rt * 10, scale=hsc, atol=hs)
                 else:
-                    out.close('invariant', _f(P.invariant()), Hr, rtol=rt * 10, scale=hsc)
+                    out.close('invariant', _f(P.invariant()), Hr, rtol=rt * 10, scale=hsc, atol=hs)
         # magnification
         if focal_ok or not math.isinf(ps.t_obj):
             mr = ps.magnification(at, av)
@@ -169,16 +185,16 @@ class C04(Check):
             if math.isfinite(mr) and abs(rua[-1]) > 1e-6 * usc:
                 if odd and out.kf_open('C04-magnification-sign'):
                     out.region('C04-magnification-sign')
-                    out.close('magnification', abs(_f(P.magnification())), abs(mr), rtol=rt, scale=max(abs(mr), 1e-12))
+                    out.close('magnification', abs(_f(P.magnification())), abs(mr), rtol=rt, scale=max(abs(mr), 1e-12), atol=sens(lambda q: q.magnification(at, av)))
                 else:
-                    out.close('magnification', _f(P.magnification()), mr, rtol=rt, scale=max(abs(mr), 1e-12))
+                    out.close('magnification', _f(P.magnification()), mr, rtol=rt, scale=max(abs(mr), 1e-12), atol=sens(lambda q: q.magnification(at, av)))
         # exit pupil
         if not image_refracts:
             XPLr = ps.XPL()
             if math.isfinite(XPLr) and abs(XPLr) < 1e9 * Lscale:
-                out.close('XPL', _f(P.XPL()), XPLr, rtol=rt, scale=sc(XPLr))
+                out.close('XPL', _f(P.XPL()), XPLr, rtol=rt, scale=sc(XPLr), atol=sens(lambda q: q.XPL()))
                 XPDr = ps.XPD(at, av)
-                out.close('XPD', _f(P.XPD()), XPDr, rtol=rt * 10, scale=max(abs(XPDr), ysc, abs(usc * XPLr)))
+                out.close('XPD', _f(P.XPD()), XPDr, rtol=rt * 10, scale=max(abs(XPDr), ysc, abs(usc * XPLr)), atol=sens(lambda q: q.XPD(at, av)))
         else:
             out.cls('xp_skipped_image_refracts')
         # linearity of the generic paraxial trace
@@ -197,8 +213,8 @@ class C04(Check):
                 out.close('linear_u', U3, a * U1 + b * U2, rtol=1e-10, scale=lus * 3)
                 # and against the reference: ray (y1,u1) given at z=-1 in object space
                 ry, ru = ps.trace(y1 + u1 * 1.0, u1)
-                out.close('generic_trace_y', Y1[1:], np.array(ry, dtype=float), rtol=rt, scale=lsc)
-                out.close('generic_trace_u', U1[1:], np.array(ru, dtype=float), rtol=rt, scale=lus)
+                out.close('generic_trace_y', Y1[1:], np.array(ry, dtype=float), rtol=rt, scale=lsc, atol=sens(lambda q: q.trace(y1 + u1 * 1.0, u1)[0]))
+                out.close('generic_trace_u', U1[1:], np.array(ru, dtype=float), rtol=rt, scale=lus, atol=sens(lambda q: q.trace(y1 + u1 * 1.0, u1)[1]))
         out.nt(powered >= 3 and ps.stop != 1 and (any(ps.mirror) or not math.isinf(ps.t_obj) or neg))
 
 
